@@ -97,6 +97,28 @@ Theorem C01_rotated_planar2d_all_stabilizers_commute_for_all_sizes :
 Proof. exact RotatedPlanar2D.rotated_planar2d_stabilizers_commute. Qed.
 Print Assumptions C01_rotated_planar2d_all_stabilizers_commute_for_all_sizes.
 
+(** Layer P, RotatedPlanar2DCode, every size >= 2: the logical X row commutes with every vertex (Z-type) generator, the
+    logical Z column with every face (X-type) generator, both lie on qubits of the lattice, and the two share exactly one
+    qubit (they anticommute). *)
+From PQ Require RotatedPlanar2DLogicals.
+Theorem C01_rotated_planar2d_logicals_for_all_sizes :
+  forall (Lx Ly : BinNums.Z) s, (2 <= Lx)%Z -> (2 <= Ly)%Z -> In s (RotatedPlanar2D.stab_coords Lx Ly) ->
+  ((RotatedPlanar2D.is_vertex s = true -> Toric2D.overlap_par (RotatedPlanar2D.support Lx Ly s) (RotatedPlanar2DLogicals.lx Lx) = false) /\
+   (RotatedPlanar2D.is_vertex s = false -> Toric2D.overlap_par (RotatedPlanar2D.support Lx Ly s) (RotatedPlanar2DLogicals.lz Ly) = false)) /\
+  Toric2D.overlap_par (RotatedPlanar2DLogicals.lx Lx) (RotatedPlanar2DLogicals.lz Ly) = true /\
+  (forall q, (Toric2D.mem q (RotatedPlanar2DLogicals.lx Lx) = true -> RotatedPlanar2D.is_qubit_b Lx Ly q = true) /\
+             (Toric2D.mem q (RotatedPlanar2DLogicals.lz Ly) = true -> RotatedPlanar2D.is_qubit_b Lx Ly q = true)).
+Proof.
+  intros Lx Ly s H1 H2 Hs.
+  assert (L1 : (1 <= Lx)%Z) by (apply BinInt.Z.le_trans with (m := 2%Z); [discriminate|assumption]).
+  assert (L2 : (1 <= Ly)%Z) by (apply BinInt.Z.le_trans with (m := 2%Z); [discriminate|assumption]).
+  split; [|split].
+  - exact (RotatedPlanar2DLogicals.rotated_planar2d_logicals_commute_with_stabilizers Lx Ly s H1 H2 Hs).
+  - exact (RotatedPlanar2DLogicals.rotated_planar2d_logical_pairing Lx Ly L1 L2).
+  - intros q. exact (RotatedPlanar2DLogicals.rotated_planar2d_logicals_on_qubits Lx Ly q L1 L2).
+Qed.
+Print Assumptions C01_rotated_planar2d_logicals_for_all_sizes.
+
 (** Layer P, Toric3DCode, every size L_x, L_y, L_z >= 2: all generators pairwise commute (same type:
     trivially; a vertex (Z-type) and a face (X-type) generator share an even number of qubits, in
     either order - the supports are proved duplicate-free so the overlap parity is symmetric). *)
